@@ -245,31 +245,29 @@ Theorem dok_partial_array_key_refuted :
 Proof. exact dok_partial_array_key_refuted_proof. Qed.
 Print Assumptions dok_partial_array_key_refuted.
 
-(* (4') GCXS.__getitem__ = _compressed/indexing.getitem (Model/GcxsGetitem.v: normalisation, the
-   full-slice shortcut, get_single_element, the compressed / uncompressed bookkeeping, reordering by
-   _axis_order, convert_to_flat, the two selection kernels, the re-splitting `uncompressed // size`,
-   shape and compressed-axes bookkeeping, re-insertion of the None axes), for every WELL-FORMED GCXS
-   array of ANY ndim >= 2 with strictly increasing compressed axes (check_compressed_axes enforces that
-   in GCXS.__init__) and every index of the classes
-     gcxs_ix_class:  basic (integers, slices with any start/stop/step, Ellipsis, fewer entries than axes)
-                     or exactly ONE index array (integer — repeated, unsorted, negative entries — or
-                     boolean; D29 clause: no empty boolean array on a non-empty axis), the rest basic;
-     gcxs_none_cond: no None at all, or None anywhere as long as no integer stands before a None and at
-                     least two axes survive:
+(* (4') GCXS.__getitem__ = _compressed/indexing.getitem (Model/GcxsGetitem.v, the code after fix a4762ef:
+   ndim <= 1 and, for ndim >= 2, every key holding None go through COO — GCXS.from_coo(x.tocoo()[key]) —; every
+   other key through the n-d code: normalisation, the full-slice shortcut, get_single_element, the compressed /
+   uncompressed bookkeeping, reordering by _axis_order, convert_to_flat, the two selection kernels, the
+   re-splitting `uncompressed // size`, shape and compressed-axes bookkeeping), for every WELL-FORMED GCXS array
+   of ANY ndim >= 2 with strictly increasing compressed axes (check_compressed_axes enforces that in
+   GCXS.__init__) and every index of the class
+     gcxs_ix_class:  basic (integers, slices with any start/stop/step, Ellipsis, None anywhere, fewer entries
+                     than axes) or exactly ONE index array (integer — repeated, unsorted, negative entries — or
+                     boolean; D29 clause: no empty boolean array on a non-empty axis), the rest basic:
    the result has NumPy's shape, the same fill value and the dense meaning NumPy prescribes
    (gcxs_getitem_den) and is again well-formed — sorted rows, consistent indptr, valid compressed axes,
    none for a 1-d result (gcxs_getitem_wf); an all-integer index gives the element; NumPy's IndexError
-   cases raise IndexError.  In fact the result is GCXS.from_coo of the COO result with the compressed
-   axes the code computes (Proofs/GcxsGetitemNdP.v; ndim = 1 delegates to COO: coo_getitem_den).
-   Clauses (findings, refuted below): None with no / one surviving axis (D22, D27) or after an integer
-   (D28), a 0-d array (D22); several index arrays (D21), unsigned index dtypes
-   (gcxs_getitem_unsigned_indices). *)
+   cases raise IndexError.  In fact the result is GCXS.from_coo of the COO result (Proofs/GcxsGetitemNdP.v;
+   ndim <= 1: gcxs_getitem_1d_partial).  (The former clauses D22_gcxs, D27, D28 — None in the key, 0-d arrays —
+   are repaired and part of the statement now.)  Not covered: several index arrays (finding D21), unsigned
+   index dtypes (gcxs_getitem_unsigned_indices). *)
 From Verif Require Import GCXS GcxsGetitem GcxsGetitem2dP GcxsGetitemNdP.
 Theorem gcxs_getitem_den_partial :
   forall (V : Type) (veqb : V -> V -> bool) (add : V -> V -> V) (kf : nat -> nat)
          (g : gcxs V) (ix : index),
     gcxs_wfb g = true -> (2 <= length (g_shape g))%nat -> StronglySorted Z.lt (g_caxes g) ->
-    no_zero_step ix = true -> gcxs_ix_class (g_shape g) ix -> gcxs_none_cond (g_shape g) ix ->
+    no_zero_step ix = true -> gcxs_ix_class (g_shape g) ix ->
     match np_index (g_shape g) ix with
     | Raise e => gcxs_getitem V veqb add kf g ix = Raise e /\ e = IndexError
     | Ok (sh', gsrc) =>
@@ -287,20 +285,20 @@ Theorem gcxs_getitem_wf_partial :
   forall (V : Type) (veqb : V -> V -> bool) (add : V -> V -> V) (kf : nat -> nat)
          (g : gcxs V) (ix : index) (g' : gcxs V),
     gcxs_wfb g = true -> (2 <= length (g_shape g))%nat -> StronglySorted Z.lt (g_caxes g) ->
-    no_zero_step ix = true -> gcxs_ix_class (g_shape g) ix -> gcxs_none_cond (g_shape g) ix ->
+    no_zero_step ix = true -> gcxs_ix_class (g_shape g) ix ->
     gcxs_getitem V veqb add kf g ix = Ok (GGArr g') -> gcxs_wfb g' = true.
 Proof. exact gcxs_getitem_wf_proof. Qed.
 Print Assumptions gcxs_getitem_wf_partial.
 
-(* ndim = 1: getitem computes x.tocoo()[key] and converts back with GCXS.from_coo (default compressed axes):
-   whatever holds of the COO result (coo_getitem_den, coo_getitem_one_array_partial, ...: any index class,
-   None included) holds of the GCXS result, which is again well-formed. *)
+(* ndim <= 1: getitem computes x.tocoo()[key] and converts back with GCXS.from_coo: whatever holds of the COO
+   result (coo_getitem_den, coo_getitem_one_array_partial, ...: any index class, None included) holds of the
+   GCXS result, which is again well-formed.  (0-d arrays included since fix a4762ef.) *)
 Theorem gcxs_getitem_1d_partial :
   forall (V : Type) (veqb : V -> V -> bool) (add : V -> V -> V) (kf : nat -> nat)
-         (g : gcxs V) (d : Z) (ix : index),
-    gcxs_wfb g = true -> g_shape g = [d] -> g_caxes g = [] -> g_indptr g = [] ->
+         (g : gcxs V) (ix : index),
+    gcxs_wfb g = true -> (length (g_shape g) <= 1)%nat -> g_caxes g = [] -> g_indptr g = [] ->
     let c := Convert.gcxs_tocoo veqb add g in
-    match np_index [d] ix with
+    match np_index (g_shape g) ix with
     | Raise e => getitem kf c ix = Raise e
     | Ok (sh', gsrc) =>
       match getitem kf c ix with
@@ -310,7 +308,7 @@ Theorem gcxs_getitem_1d_partial :
       | Raise _ => False
       end
     end ->
-    match np_index [d] ix with
+    match np_index (g_shape g) ix with
     | Raise e => gcxs_getitem V veqb add kf g ix = Raise e
     | Ok (sh', gsrc) =>
       match gcxs_getitem V veqb add kf g ix with
@@ -323,28 +321,6 @@ Theorem gcxs_getitem_1d_partial :
 Proof. exact gcxs_getitem_1d_proof. Qed.
 Print Assumptions gcxs_getitem_1d_partial.
 
-Theorem gcxs_getitem_d22_refuted :
-  (let g := mkGCXS [] [] [3] [] [] 0 in
-   gcxs_wfb g = true /\ (exists sh' s, np_index (g_shape g) [] = Ok (sh', s)) /\ rx_get g [] = Raise TypeError)
-  /\
-  (let g := Convert.gcxs_from_coo rx_c2 [0] in let ix := [IInt 0; INone; IInt 1] in
-   gcxs_wfb g = true /\ (exists s, np_index (g_shape g) ix = Ok ([1], s)) /\ rx_get g ix = Raise IndexError).
-Proof. exact gcxs_getitem_d22_refuted_proof. Qed.
-Print Assumptions gcxs_getitem_d22_refuted.
-
-Theorem gcxs_getitem_d27_refuted :
-  let g := Convert.gcxs_from_coo rx_c2 [0] in let ix := [INone; IInt 1; rx_full] in
-  gcxs_wfb g = true /\ (exists s, np_index (g_shape g) ix = Ok ([1; 3], s))
-  /\ match rx_get g ix with Ok (GGArr g') => g_shape g' = [1; 3] /\ gcxs_wfb g' = false | _ => False end.
-Proof. exact gcxs_getitem_d27_refuted_proof. Qed.
-Print Assumptions gcxs_getitem_d27_refuted.
-
-Theorem gcxs_getitem_d28_refuted :
-  let g := Convert.gcxs_from_coo rx_c3 [0] in let ix := [IInt 0; INone; rx_full; rx_full] in
-  gcxs_wfb g = true /\ (exists s, np_index (g_shape g) ix = Ok ([1; 2; 2], s))
-  /\ match rx_get g ix with Ok (GGArr g') => g_shape g' = [2; 1; 2] | _ => False end.
-Proof. exact gcxs_getitem_d28_refuted_proof. Qed.
-Print Assumptions gcxs_getitem_d28_refuted.
 
 (* The scalar-vs-0-d rule for indices with index arrays: never a scalar, on either side (NumPy: np_scalar
    is false as soon as one entry is not an integer; the code: the result shape has the arrays' axis). *)
